@@ -234,33 +234,41 @@ func (s *supARFO) childTerminated(name gen.Atom, pid gen.PID, reason error) supA
 
 	if s.mode == 2 { // stopping (restarting)
 
-		if s.keeporder == false {
-			if len(s.wait) > 0 {
-				// return action with empty list. just wait for the child processes
-				// to be terminated
-				action.do = supActionTerminateChildren
-				return action
-			}
+		if s.rest && specI < s.restartI {
+			// a child in front of the children being restarted has terminated
+			// meanwhile: the restart starts with this one now
+			s.restartI = specI
+		}
 
-		} else {
-			if len(s.wait) > 0 {
-				// must be 0
-				panic(gen.ErrInternal)
+		if len(s.wait) > 0 {
+			// wait for the child processes that have been asked to terminate
+			action.do = supActionTerminateChildren
+			if s.keeporder == false {
+				// and ask those that belong to the restart now and have not
+				// been asked yet
+				asked := make(map[gen.PID]bool)
+				for pid := range s.wait {
+					asked[pid] = true
+				}
+				for _, pid := range s.childrenForTermination() {
+					if asked[pid] {
+						continue
+					}
+					action.terminate = append(action.terminate, pid)
+				}
+				if len(action.terminate) > 0 {
+					action.reason = reason
+				}
 			}
+			return action
+		}
 
-			if specI < s.restartI {
-				// terminated child is not among we are waiting for termination.
-				// update the position
-				s.restartI = specI
-			}
-
-			terminate := s.childrenForTermination()
-			if len(terminate) > 0 {
-				action.do = supActionTerminateChildren
-				action.reason = reason
-				action.terminate = terminate
-				return action
-			}
+		terminate := s.childrenForTermination()
+		if len(terminate) > 0 {
+			action.do = supActionTerminateChildren
+			action.reason = reason
+			action.terminate = terminate
+			return action
 		}
 
 		s.mode = 1 // starting (restarting)
